@@ -662,14 +662,19 @@ class Stage:
         der_symbols = [self._signals[e].der for e in symbols if e in self._signals]
         if depends_on(expr, self.u):
             raise Exception("Dependency on controls not supported yet for stage.der")
+        if depends_on(expr, self.z):
+            raise Exception("Dependency on algebraic variables not supported for stage.der")
         ode = self._ode()
+        # Quadrature states are differentiated along with the regular states (their rate is the 'quad' output)
         if depends_on(expr,self.t) or nominal_symbols:
-            return jtimes(expr, vertcat(self.x, self.t, *nominal_symbols), vertcat(ode(x=self.x, u=self.u, z=self.z, p=vertcat(self.p, self.v), t=self.t)["ode"], 1, *der_symbols))
+            res = ode(x=self.x, u=self.u, z=self.z, p=vertcat(self.p, self.v), t=self.t)
+            return jtimes(expr, vertcat(self.x, self.xq, self.t, *nominal_symbols), vertcat(res["ode"], res["quad"], 1, *der_symbols))
         else:
             if expr in self.states:
-                return jtimes(expr, self.x, ode.call(dict(x=self.x, u=self.u, z=self.z, p=vertcat(self.p, self.v), t=self.t),True,False)["ode"])
+                res = ode.call(dict(x=self.x, u=self.u, z=self.z, p=vertcat(self.p, self.v), t=self.t),True,False)
             else:
-                return jtimes(expr, self.x, ode(x=self.x, u=self.u, z=self.z, p=vertcat(self.p, self.v), t=self.t)["ode"])
+                res = ode(x=self.x, u=self.u, z=self.z, p=vertcat(self.p, self.v), t=self.t)
+            return jtimes(expr, vertcat(self.x, self.xq), vertcat(res["ode"], res["quad"]))
 
 
     def integral(self, expr, grid='inf',refine=1):
